@@ -306,12 +306,13 @@ pub fn run(ctx: &Ctx) -> Outcome {
         let is_bm = matches!(*fam, "cbc" | "pcbc" | "ige" | "cfb" | "cfb8" | "ofb");
         let depth = if par <= 4 { tier.pick(3, 4) } else { 3 };
         // the op alphabet: stream backends have no in-place variants; tails of two blocks need width >= 3
-        let mut ops: Vec<u8> = if is_bm { vec![0, 1, 2, 3, 4, 5, 6, 7] } else { vec![0, 2, 4, 6] };
+        // (block modes: + 0x10 = the same call buffer to buffer, from a private input copy into the poisoned buffer)
+        let mut ops: Vec<u8> = if is_bm { vec![0, 1, 2, 3, 4, 5, 6, 7, 0x10, 0x12, 0x14, 0x16] } else { vec![0, 2, 4, 6] };
         if par < 3 {
-            ops.retain(|o| *o < 6);
+            ops.retain(|o| (*o & 0x0f) < 6);
         }
         if par < 2 {
-            ops.retain(|o| *o < 4);
+            ops.retain(|o| (*o & 0x0f) < 4);
         }
         let mut scripts: Vec<Vec<u8>> = ops.iter().map(|o| vec![*o]).collect();
         let mut last = scripts.clone();
@@ -339,7 +340,7 @@ pub fn run(ctx: &Ctx) -> Outcome {
                     let st = obj.iv_state();
                     obj.one(Kind::InPlace, &[], &mut buf[n * g..(n + 1) * g]);
                     let got = &buf[..(n + 1) * g];
-                    ensure!(got == &want.out[..(n + 1) * g], format!("output/{}-{}/script", fam, dir.s()), "{}: caller-supplied closure making the backend calls {:?} in one session (0/1 = parallel group, 2/3 = single block, 4/5 = tail of 1, 6/7 = tail of 2; odd = in-place method; {} blocks), then one ordinary block: {} want {} (first diff at byte {:?})", d.ty, script, n, short(got), short(&want.out[..(n + 1) * g]), first_diff(got, &want.out[..(n + 1) * g]));
+                    ensure!(got == &want.out[..(n + 1) * g], format!("output/{}-{}/script", fam, dir.s()), "{}: caller-supplied closure making the backend calls {:?} in one session (0/1 = parallel group, 2/3 = single block, 4/5 = tail of 1, 6/7 = tail of 2; odd = in-place method, +16 = buffer to buffer; {} blocks), then one ordinary block: {} want {} (first diff at byte {:?})", d.ty, script, n, short(got), short(&want.out[..(n + 1) * g]), first_diff(got, &want.out[..(n + 1) * g]));
                     ensure!(st == want.states[n], format!("chaining_state/{}-{}/script", fam, dir.s()), "{}: chaining state after the closure script {:?} is {} want {}", d.ty, script, short(&st), short(&want.states[n]));
                     Ok(())
                 });
